@@ -108,6 +108,22 @@ def run(W, chk):
                    "every close refund is sent as reply_on_error (a failing refund cannot block the close or the new farm)",
                    "close refunds %d, reply_on_error wrappers %d; refund among the plain messages of the response: %s; reply modes in the response %s" % (
                        len(refunds), len(errs), "Store(FARMS).owner" in recipients(plain), sorted(ro)), A.entry)
+    # one tolerated refund per closed farm: the refund is built in the same loop iteration that removes the farm (a refund message
+    # that collects several farms' coins would fail as a whole when one denom cannot be sent, and the farms are removed regardless)
+    from rules.common import same_iteration
+    for vp in (("ManageFarm", ".action", "Close"), ("ManageFarm", ".action", "Create")):
+        A = W.run("farm_manager", "execute", vp)
+        rem = [e for e in A.writes() if e.extra.get("item") == "FARMS" and e.extra.get("sop") == "remove"]
+        refunds = sends_to(A, {"Store(FARMS).owner"})
+        if not rem or not refunds:
+            continue
+        res = [same_iteration(W, rem[0], r) for r in refunds]
+        if any(x is None for x in res):
+            chk.skip("ERR-refund-per-farm", "/".join(vp), "loop structure not recognised")
+            continue
+        chk.expect(all(res), "ERR-refund-per-farm", "/".join(vp), "each tolerated refund is built in the iteration that removes its farm (one sub-message per farm)",
+                   "the tolerated refund is not built per closed farm (it is assembled outside the loop that removes the farms): one failing denom takes the other refunds of "
+                   "the same message with it", where(refunds[0]))
     modes = {(c, m) for (c, w, vp, m, e, A) in seen}
     chk.expect(("pool_manager", "Success") in modes and ("farm_manager", "Error") in modes, "ERR-submsg-anchors",
                "anchors", "both documented sub-messages found", "documented sub-message constructors not found: %s" % sorted(modes))
